@@ -1,7 +1,9 @@
 """C08 IMPL runner (runs under /venv/bin/python with PYTHONPATH=<repo>/python).
 
 stdin: one JSON object per line
-   {"id":…, "recipe":[…], "consts":[READ,MAX] | null, "threads":[1,2,…]}
+   {"id":…, "recipe":[…], "consts":[READ,MAX] | null, "threads":[1,2,…], "paths":[W,…] | absent}
+   ("paths": also obtain the index through fast_generate_index(save_index=True) with those worker counts, through a second
+   call that loads the saved .p1i, and through MixedLogReader(path).get_index() with default arguments, twice)
 stdout: one JSON object per line
    {"id":…, "size":n, "runs":{"1": [[seconds|null,type,offset,message_index],…] | {"raise":"ExcType", "msg":…}, …},
     "oracle":{md5(type_le16 ver payload): [num,den] | null, …}, "consts":[READ,MAX] actually in force}
@@ -108,16 +110,56 @@ def oracle_table(data, legacy_view=None):
     return out
 
 
-def run_index(path, nt):
+def entries(idx):
+    t = idx.time
+    return [[None if math.isnan(a) else (int(a) if a == int(a) else a), int(b), int(c), int(d)]
+            for a, b, c, d in zip(t.tolist(), idx.type.tolist(), idx.offset.tolist(), idx.message_index.tolist())]
+
+
+def guarded(f):
     try:
-        idx = fi.fast_generate_index(path, force_reindex=True, save_index=False, num_threads=nt)
-        t = idx.time
-        return [[None if math.isnan(a) else int(a), int(b), int(c), int(d)]
-                for a, b, c, d in zip(t.tolist(), idx.type.tolist(), idx.offset.tolist(), idx.message_index.tolist())]
+        return entries(f())
     except BaseException as e:  # noqa — "never raises" is the observation
         if isinstance(e, (KeyboardInterrupt, SystemExit)):
             raise
         return {'raise': type(e).__name__, 'msg': str(e)[:200]}
+
+
+def run_index(path, nt):
+    return guarded(lambda: fi.fast_generate_index(path, force_reindex=True, save_index=False, num_threads=nt))
+
+
+def _rm_index(path):
+    p = os.path.splitext(path)[0] + '.p1i'
+    if os.path.exists(p):
+        os.remove(p)
+
+
+def run_paths(path, threads):
+    """the other public ways to obtain the index of a file: generated and saved, loaded from the saved .p1i on a second
+    call, and through MixedLogReader(path).get_index() with default arguments, first without and then with an index
+    file on disk.  Keys: 'save:<W>', 'load', 'reader', 'reader-again'."""
+    from fusion_engine_client.parsers import MixedLogReader
+    out = {}
+    _rm_index(path)
+    for nt in threads:
+        out['save:%d' % nt] = guarded(lambda: fi.fast_generate_index(path, force_reindex=True, save_index=True, num_threads=nt))
+    out['load'] = guarded(lambda: fi.fast_generate_index(path))
+    _rm_index(path)
+
+    def reader():
+        r = MixedLogReader(path)
+        try:
+            return r.get_index()
+        finally:
+            try:
+                r.input_file.close()
+            except Exception:
+                pass
+    out['reader'] = guarded(reader)
+    out['reader-again'] = guarded(reader)
+    _rm_index(path)
+    return out
 
 
 def _default_payload(cls, seconds):
@@ -212,10 +254,12 @@ def main():
             set_consts(*consts)
         try:
             runs = {str(nt): run_index(path, nt) for nt in case['threads']}
+            if case.get('paths'):
+                runs.update(run_paths(path, case['paths']))
         finally:
             if case.get('consts'):
                 set_consts(*REAL)
-        res = {'id': case.get('id'), 'size': len(data), 'runs': runs, 'consts': [int(consts[0]), int(consts[1])]}
+        res = {'id': case.get('id'), 'size': len(data), 'runs': runs, 'consts': [int(consts[0]), int(consts[1])], 'cpu_count': os.cpu_count()}
         if case.get('oracle', True):
             res['oracle'] = oracle_table(data, (int(consts[0]), int(consts[1])) if case.get('legacy_view') else None)
         print(json.dumps(res), flush=True)
